@@ -141,6 +141,70 @@ def replay_behaviour(tid, states, interval):
     return run, rec, drift
 
 
+def public_api_case(tid, interval, responsive, nintervals=5):
+    """The same question asked of the whole stack: two real wormholes, `w.dilate(ping_interval=interval)` on both, the real
+    Connector / DilatedConnectionProtocol (harness Noise stand-in) over the simulated TCP fabric.  Once connected the Follower
+    either goes silent (nothing is delivered any more) or keeps answering; the Leader's interval timer is let run for
+    `nintervals` configured intervals and the record is judged by DilationTimerObs.tla against the *configured* interval."""
+    from .dil_full import FullWorld
+    fw = FullWorld(variant=tid)
+    fw.dilate_kwargs = {"ping_interval": float(interval)}
+    pings = []
+    errors = []
+    fw.do(("AppDilate", "L", 0))
+    m = fw.manager("L")
+    orig = m.send_ping
+
+    def send_ping(ping_id, on_pong=None):
+        pings.append({"conn": 1, "sent": int(reactor.seconds()), "answered": 0, "lost": m._outbound._connection is None, "id": ping_id})
+        return orig(ping_id, on_pong)
+    m.send_ping = send_ping
+    fw.do(("AppDilate", "F", 0))
+    connected = fw.run_out() and bool(fw.selected_links("L")) and bool(fw.selected_links("F"))
+    snaps, dropped = [], []
+    timers_max = 0
+    t_end = reactor.seconds() + nintervals * interval + 1
+    sel = fw.selected_links("L")
+    link = fw.links[sel[0]] if sel else None
+    e = fw.end_of(link, "L") if link is not None else None
+
+    def timer_calls():
+        return [dc for dc in reactor.getDelayedCalls() if getattr(dc.func, "__name__", "") == "timer_expired"]
+
+    def snap():
+        tc = timer_calls()
+        snaps.append({"now": int(reactor.seconds()), "conn": 1, "stopped": False, "timer": int(tc[0].getTime()) if tc else 0})
+    if connected:
+        snap()
+        for _ in range(50):
+            timers_max = max(timers_max, len(timer_calls()))
+            if dropped:
+                break
+            nxt = min([dc.getTime() for dc in timer_calls()] + [t_end])
+            reactor.rightNow = max(reactor.rightNow, nxt)
+            try:
+                fw.run_auto_timers()
+                if responsive:
+                    fw.run_out()
+            except Exception as ex:
+                errors.append(repr(ex)[:100])
+            if responsive:
+                for p_ in pings:
+                    if not p_["answered"] and p_["id"] not in m._pings_outstanding:
+                        p_["answered"] = int(reactor.seconds()) or 1
+            if link.ends[e].disconnecting or not link.ends[e].connected:
+                dropped.append({"conn": 1, "at": int(reactor.seconds())})
+            snap()
+            if reactor.seconds() >= t_end:
+                break
+    rec = {"tid": tid, "I": interval, "now": int(reactor.seconds()), "conn": 1 if connected else 0, "stopped": False,
+           "pings": [{k: p_[k] for k in ("conn", "sent", "answered", "lost")} for p_ in pings], "dropped": dropped,
+           "timer": snaps[-1]["timer"] if snaps else 0, "maxTimers": timers_max, "snaps": snaps,
+           "internal": errors + fw.finish() + ([] if connected else ["public-api case: the two wormholes did not connect"]),
+           "origin": "family:public-api:%s" % ("responsive" if responsive else "silent"), "config": "public"}
+    return rec
+
+
 def run(prop, tier):
     quick = tier == "quick"
     seed = common.seed()
@@ -212,6 +276,16 @@ def run(prop, tier):
                     ndrift += 1
                     if len(cov["drift"]) < 6:
                         cov["drift"].append(dict(drift, tid=tid, config=name, goal=g))
+        # family: the interval the application configures through the public API is the one the monitor keeps
+        n = 0
+        for interval in ((5, 47) if quick else (2, 5, 29, 47, 120)):
+            for responsive in (False, True):
+                tid += 1
+                n += 1
+                rec = public_api_case(tid, interval, responsive)
+                records.append(rec)
+                meta[tid] = {"schedule": [["public-api", interval, responsive]], "I": interval}
+        cov["public_api_cases"] = n
         path = wd.file("obs.ndjson")
         with open(path, "w") as f:
             for rec in records:
